@@ -571,18 +571,20 @@ theorem C13.fd_adjoint_hermitian {K : Type} [Field K] (σ : K →+* K) (m : Meth
 
 /-! ### Which instance `.adjoint` returns (flags `affineAware`, `adjGuarded` are generated) -/
 
-/-- On linear instances (`pad_const = 0`) of all four classes, `.adjoint.adjoint` is the
+/-- (Round 5: stated for the EXECUTED `Op.adjointBy` on the generated `adjSpec`.)
+On linear instances (`pad_const = 0`) of all four classes, `.adjoint.adjoint` is the
 instance itself: same class (Gradient ↔ Divergence swapped twice), method, pad mode, sign.
 (Stated for `pad_const = 0` only: `Divergence.adjoint` does not pass `pad_const` on.) -/
 theorem C13.op_adjoint_involutive {K : Type} [Field K] [DecidableEq K] (k : Kind) (m : Method)
     (p : Pad) (neg : Bool) :
-    ((⟨k, m, p, (0 : K), neg⟩ : Op K).adjoint affineAware adjGuarded adjMethod adjPad).bind
-        (fun o => o.adjoint affineAware adjGuarded adjMethod adjPad)
+    ((⟨k, m, p, (0 : K), neg⟩ : Op K).adjointBy affineAware adjGuarded adjSpec adjMethod
+        adjPad).bind (fun o => o.adjointBy affineAware adjGuarded adjSpec adjMethod adjPad)
       = some ⟨k, m, p, 0, neg⟩ := by
   obtain ⟨h1, h2, -, -⟩ := C13.adj_involutive
-  cases k <;> simp [Op.adjoint, Op.isLinear, affineAware, adjGuarded, h1 m, h2 p]
+  cases k <;> simp [Op.adjointBy, Op.isLinear, affineAware, adjGuarded, adjSpec, h1 m, h2 p]
 
-/-- Every one of the four classes flags the constant-padding variant with `pad_const ≠ 0` as
+/-- (Round 5: stated for the EXECUTED `Op.adjointBy` on the generated `adjSpec`.)
+Every one of the four classes flags the constant-padding variant with `pad_const ≠ 0` as
 non-linear and refuses to return an adjoint for it (`ValueError`); every other instance is
 flagged linear and has an adjoint.  Breaks if an `__init__` passes `linear=True` or an
 `.adjoint` loses its guard. -/
@@ -590,12 +592,13 @@ theorem C13.affine_instances_have_no_adjoint {K : Type} [Field K] [DecidableEq K
     (m : Method) (p : Pad) (c : K) (neg : Bool) :
     let o : Op K := ⟨k, m, p, c, neg⟩
     (o.isLinear affineAware = !(p == .constant && c != 0)) ∧
-    ((o.adjoint affineAware adjGuarded adjMethod adjPad).isSome = o.isLinear affineAware) := by
+    ((o.adjointBy affineAware adjGuarded adjSpec adjMethod adjPad).isSome
+      = o.isLinear affineAware) := by
   cases k <;> by_cases hp : p = .constant <;> by_cases hc : c = 0 <;>
-    simp [Op.adjoint, Op.isLinear, affineAware, adjGuarded, hp, hc]
+    simp [Op.adjointBy, Op.isLinear, affineAware, adjGuarded, hp, hc]
 
-example : ((⟨.lap, .forward, .constant, (1 : ℚ), false⟩ : Op ℚ).adjoint
-    affineAware adjGuarded adjMethod adjPad).isSome = false := by
+example : ((⟨.lap, .forward, .constant, (1 : ℚ), false⟩ : Op ℚ).adjointBy
+    affineAware adjGuarded adjSpec adjMethod adjPad).isSome = false := by
   have h := (C13.affine_instances_have_no_adjoint .lap .forward .constant (1 : ℚ) false).2
   simp only [Op.isLinear, affineAware] at h
   rw [h]; simp
@@ -644,7 +647,10 @@ theorem C13.pad_const_ignored_unless_constant {K : Type} [Field K] (m : Method) 
     simp only [List.mem_cons, List.mem_map]; exact Or.inr (Or.inr ⟨a, ha, rfl⟩)))
   simp only [fd, fdNum, foldl_accStep, assign, h0, hN, hA]
 
-/-- The instance `Op.derivative` returns (executed by the driver's `cfg act=derivative`, compared
+/-- REFERENCE TWIN since round 5 (used as a lemma by `op_derivativeBy_is_derivative`, which is
+the theorem about the executed, generated definition; `Op.derivative` itself is only reachable
+through the driver op `cfgh`).
+The instance `Op.derivative` returns (until round 4 executed by the driver's `cfg act=derivative`, compared
 with `op.derivative(x)` of the real classes) IS the derivative of the instance's 1-d action:
 for every instance (any class, method, pad mode, `pad_const`), every `n ≥ 2`, all `f, h`:
 `D_o(f+h) − D_o(f) = D_{o.derivative}(h)`; the returned instance is flagged linear and is its
@@ -733,7 +739,10 @@ theorem C13.is_linear_iff_zero_to_zero {K : Type} [Field K] [CharZero K] [Decida
     rw [C13.pad_const_ignored_unless_constant m p hp]; exact z0 i
 
 
-/-- The instance `Op.adjoint` builds (executed by `cfg act=adjoint`, compared with the object
+/-- REFERENCE TWIN since round 5: `Op.adjoint` is the hand-written statement of which instance
+SHOULD be returned; it is no longer executed in the correspondence stream (driver op `cfgh`
+only) - the theorem about the executed, generated definition is `op_adjointBy_is_transpose`.
+The instance `Op.adjoint` builds (until round 4 executed by `cfg act=adjoint`, compared with the object
 `op.adjoint` of PartialDerivative / Gradient / Divergence) IS minus the transpose of the
 instance's 1-d action, for EVERY linear instance - also with a `pad_const ≠ 0` that a
 non-constant pad mode carries along or that `Divergence.adjoint` drops - every `n` on which both
